@@ -469,7 +469,8 @@ func Hex(s string) string {
 type Workload struct {
 	Name    string
 	N       int
-	Workers int // 0 = run default
+	Workers int    // 0 = run default
+	Before  func() // runs once before the cases of this workload (also when replaying)
 	Fn      func(r *Run, idx int, rng *rand.Rand)
 }
 
@@ -543,10 +544,16 @@ func (r *Run) Execute(j *Journal, wls []Workload) {
 			if wl.Name != r.ReplayWL {
 				continue
 			}
+			if wl.Before != nil {
+				wl.Before()
+			}
 			j.Begin(0, wl.Name, r.ReplayIx)
 			r.safeCase(wl, r.ReplayIx)
 			j.End(0)
 			continue
+		}
+		if wl.Before != nil {
+			wl.Before()
 		}
 		workers := wl.Workers
 		if workers == 0 {
